@@ -655,6 +655,10 @@ func callSSA(i *Interp, caller *frame, callpos token.Pos, fn *ssa.Function, args
 	if i.depth > i.maxDepth {
 		i.maxDepth = i.depth
 	}
+	if i.path != nil && i.path.depthBound > 0 && i.depth > i.path.depthBound {
+		i.depth--
+		i.abort("violation", "Go recursion deeper than %d frames in %s: unbounded recursion on this input (natively: fatal stack overflow)", i.path.depthBound, fi.name)
+	}
 	if i.depth > i.cfg.MaxGoDepth {
 		i.depth--
 		i.abort("depth", "interpreted Go call depth exceeded %d in %s", i.cfg.MaxGoDepth, fi.name)
